@@ -314,6 +314,10 @@ SOLVER_CLASSES = {
     "SolverComposite": lambda **kw: claripy.SolverComposite(**kw),
     "SolverReplacement": lambda **kw: claripy.SolverReplacement(**{k: v for k, v in kw.items() if k != "track"}),
     "SolverHybrid": lambda **kw: claripy.SolverHybrid(**kw),
+    "SolverVSA": lambda **kw: claripy.SolverVSA(),
+    "SolverReplacement:noauto": lambda **kw: claripy.SolverReplacement(auto_replace=False),
+    # the hybrid plumbing with an approximate side that is sound by construction (a second exact solver)
+    "SolverHybrid:stub": lambda **kw: claripy.SolverHybrid(approximate_frontend=claripy.Solver(), **kw),
     "SolverCompositeChild": lambda **kw: __import__("claripy.solvers").solvers.SolverCompositeChild(**kw),
 }
 
@@ -343,6 +347,64 @@ class Ref:
 def signed_val(v, w):
     v &= (1 << w) - 1
     return v - (1 << w) if v >> (w - 1) else v
+
+
+def judge_approx(uni, ref, d, outcome):
+    """C13, second half: an approximate answer (exact=False, or SolverVSA) never excludes a value or a model that
+    exists and never reports a satisfiable constraint set as unsatisfiable."""
+    op, s = d["op"], d["s"]
+    if op in ("add", "simplify", "downsize", "branch"):
+        return None if outcome[0] == "ok" else ("crash:" + str(outcome[1]), "%s raised %s" % (op, outcome[1:]))
+    extra = [uni.parse(c) for c in d.get("extra", [])]
+    sm = ref.satmask(s, extra)
+    if outcome[0] == "err":
+        if outcome[1] == "ClaripyFrontendError":
+            return None          # the light frontend declines (the hybrid then falls back to the exact side): no claim made
+        return ("crash:" + outcome[1], "%s raised %s: %s" % (op, outcome[1], outcome[2]))
+    if outcome[0] == "unsat":
+        return ("approx-claims-unsat", "UnsatError although %d assignment(s) satisfy the constraints" % bin(sm).count("1")) if sm else None
+    val = outcome[1]
+    if sm == 0:
+        return None              # anything goes on an unsatisfiable set
+    if op == "satisfiable":
+        return None if val else ("approx-claims-unsat", "satisfiable(exact=False) = False on satisfiable constraints")
+    if op in ("eval", "batch_eval"):
+        exprs = [uni.parse(d["e"])] if op == "eval" else [uni.parse(e) for e in d["es"]]
+        res = set((int(v),) for v in val) if op == "eval" else set(tuple(int(x) for x in t) for t in val)
+        V = uni.tuple_set(exprs, sm)
+        if len(res) < d["n"] and not V <= res:
+            # fewer than n returned means "these are all": then none that exists may be missing
+            return ("approx-excludes-value", "returned all of %s but %s exist" % (sorted(res)[:20], sorted(V - res)[:10]))
+        if len(res) == 0:
+            return ("approx-claims-unsat", "no value returned on satisfiable constraints")
+        return None
+    if op in ("min", "max"):
+        e = uni.parse(d["e"])
+        w = e.size()
+        if e.op == "BVV":
+            return None
+        if val is None:
+            return ("approx-none-answer", "%s(exact=False) returned None" % op)
+        V = uni.value_set(e, sm)
+        key = (lambda v: signed_val(v, w)) if d["signed"] else (lambda v: v)
+        opt = key((min if op == "min" else max)(V, key=key))
+        got = signed_val(int(val), w) if d["signed"] else int(val) % (1 << w)
+        if (op == "min" and got > opt) or (op == "max" and got < opt):
+            return ("approx-excludes-value", "%s = %s excludes the attainable %d" % (op, val, opt))
+        return None
+    if op == "solution":
+        e = uni.parse(d["e"])
+        feas = bool(uni.vmask(e).get(d["v"] % (1 << e.size()), 0) & sm)
+        return ("approx-excludes-value", "solution(%s, %d) = False but it is attainable" % (d["e"], d["v"])) if feas and not val else None
+    if op in ("is_true", "is_false"):
+        e = uni.parse(d["e"])
+        if val:
+            m = uni.mask(e)
+            holds = (sm & ~m) == 0 if op == "is_true" else (sm & m) == 0
+            if not holds:
+                return ("unsound-" + op, "%s(%s) = True but it does not hold in every model" % (op, d["e"]))
+        return None
+    return None
 
 
 def judge(uni, ref, d, outcome):
@@ -379,7 +441,7 @@ def judge(uni, ref, d, outcome):
             return None
         if sm == 0:
             # the statement does not demand UnsatError; an empty result claims nothing
-            return ("infeasible", "returned %s on unsatisfiable constraints" % (res,)) if res else None
+            return ("value-on-unsat", "returned %s on unsatisfiable constraints" % (res,)) if res else None
         V = uni.tuple_set(exprs, sm)
         res_i = [tuple(int(x) for x in t) for t in res]
         bad = [t for t in res_i if t not in V]
@@ -398,7 +460,7 @@ def judge(uni, ref, d, outcome):
         if e.op == "BVV":
             return None if int(val) == e.args[0] else ("wrong-constant", "constant %s gave %s" % (e, val))
         if sm == 0:
-            return ("missing-unsat", "%s returned %s on unsatisfiable constraints" % (op, val))
+            return ("value-on-unsat", "%s returned %s on unsatisfiable constraints" % (op, val))
         V = uni.value_set(e, sm)
         key = (lambda v: signed_val(v, w)) if d["signed"] else (lambda v: v)
         opt = (min if op == "min" else max)(V, key=key)
@@ -499,6 +561,21 @@ def judge_structure(uni, ref, solvers, d, outcome, pre):
     raise ValueError(op)
 
 
+def replaced_predicate(uni, solver, d):
+    """classifier: a replacement frontend answers a query whose expression it replaced by a constant without
+    consulting the constraints (so also when they are unsatisfiable)"""
+    rf = solver
+    if not hasattr(rf, "_replacement"):
+        return ""
+    exprs = [d["e"]] if "e" in d else d.get("es", [])
+    try:
+        if exprs and all((not rf._replacement(uni.parse(e)).symbolic) for e in exprs) and any(uni.parse(e).symbolic for e in exprs):
+            return ":replaced-to-constant"
+    except Exception:  # noqa: BLE001
+        pass
+    return ""
+
+
 def structure_predicate(solver, d):
     """classifier for findings about split(): names the state predicate that explains overlapping parts"""
     if d["op"] == "split" and hasattr(solver, "_solvers"):
@@ -535,27 +612,28 @@ def apply_op(uni, solvers, d):
     op = d["op"]
     s = solvers[d["s"]]
     ex = tuple(uni.parse(c) for c in d.get("extra", []))
+    kw = {"exact": False} if d.get("approx") else {}
     try:
         if op == "add":
             r = s.add([uni.parse(c) for c in d["cs"]])
             return ("ok", None if r is None else len(r))
         if op == "satisfiable":
-            return ("ok", s.satisfiable(extra_constraints=ex))
+            return ("ok", s.satisfiable(extra_constraints=ex, **kw))
         if op == "eval":
-            return ("ok", tuple(s.eval(uni.parse(d["e"]), d["n"], extra_constraints=ex)))
+            return ("ok", tuple(s.eval(uni.parse(d["e"]), d["n"], extra_constraints=ex, **kw)))
         if op == "batch_eval":
-            return ("ok", [tuple(t) for t in s.batch_eval([uni.parse(e) for e in d["es"]], d["n"], extra_constraints=ex)])
+            return ("ok", [tuple(t) for t in s.batch_eval([uni.parse(e) for e in d["es"]], d["n"], extra_constraints=ex, **kw)])
         if op == "min":
-            return ("ok", s.min(uni.parse(d["e"]), extra_constraints=ex, signed=d["signed"]))
+            return ("ok", s.min(uni.parse(d["e"]), extra_constraints=ex, signed=d["signed"], **kw))
         if op == "max":
-            return ("ok", s.max(uni.parse(d["e"]), extra_constraints=ex, signed=d["signed"]))
+            return ("ok", s.max(uni.parse(d["e"]), extra_constraints=ex, signed=d["signed"], **kw))
         if op == "solution":
             e = uni.parse(d["e"])
-            return ("ok", s.solution(e, d["v"] % (1 << e.size()), extra_constraints=ex))
+            return ("ok", s.solution(e, d["v"] % (1 << e.size()), extra_constraints=ex, **kw))
         if op == "is_true":
-            return ("ok", s.is_true(uni.parse(d["e"]), extra_constraints=ex))
+            return ("ok", s.is_true(uni.parse(d["e"]), extra_constraints=ex, **kw))
         if op == "is_false":
-            return ("ok", s.is_false(uni.parse(d["e"]), extra_constraints=ex))
+            return ("ok", s.is_false(uni.parse(d["e"]), extra_constraints=ex, **kw))
         if op == "simplify":
             s.simplify()
             return ("ok", None)
@@ -705,7 +783,14 @@ def run_history(uni, cls, cfg, hist, on_step=None):
             elif d["op"] == "branch" and out[0] == "ok":
                 ref.branch(d["s"])
             outs.append(out)
-            j = judge_core(uni, ref, solvers[d["s"]], d, out) if d["op"] == "unsat_core" else judge(uni, ref, d, out)
+            if d["op"] == "unsat_core":
+                j = judge_core(uni, ref, solvers[d["s"]], d, out)
+            elif d.get("approx") or cls == "SolverVSA":  # approximate answers: over-approximation is all that is asked
+                j = judge_approx(uni, ref, d, out)
+            else:
+                j = judge(uni, ref, d, out)
+                if j and j[0] == "value-on-unsat":
+                    j = (j[0] + replaced_predicate(uni, solvers[d["s"]], d), j[1])
             if j:
                 fails.append((k, j[0], j[1]))
             if on_step:
@@ -795,7 +880,7 @@ def shrink(uni, cls, cfg, hist, kind, tries=2):
 def signature(prop, cls, cfg, hist, idx, kind):
     """finding signature: property / class / failing call / failure kind + predicate class of the input"""
     d = hist[idx]
-    if d["op"] in ("split", "combine", "merge"):
+    if d["op"] in ("split", "combine", "merge") or ":" in kind.replace("crash:", ""):
         return "%s/%s/%s/%s" % (prop, cls, d["op"], kind)
     preds = []
     if "signed" in d:
